@@ -207,15 +207,16 @@ CLAIMED["C15"] = dict(
 KT = " The text of the kernel(s) is ALSO tied by proof: the term regenerated from /repo by the translator computes the functional model (Properties/%sb.v)%s."
 ADD = {
  "C01": " EXACT coverage (C01_cover_exact): when no input is zero-length the only missing points are the microsecond before a genuine touching point; with a zero-length input this fails (C01_cover_exact_zero_length_refuted, known finding)." + KT % ("C01", ", total correctness (it terminates and returns fix_iset, no hypothesis)"),
- "C02": " Wrapper-level endpoint, list-level commutativity and measure theorems (loss at most 1 us per junction)." + KT % ("C02", ": jitunion/jitunion_isets total, jitintersect/jitdiff partial + termination (C15b)"),
+ "C02": " Wrapper-level endpoint, list-level commutativity and measure theorems (loss at most 1 us per junction)." + KT % ("C02", ": jitunion, jitunion_isets, jitintersect, jitdiff, total correctness"),
  "C03": " Support, constructor and per-sample composition clauses are theorems too." + KT % ("C03", ": jitrestrict, jitrestrict_with_count, jitin_interval, total correctness"),
- "C05": KT % ("C05", ": jitcount and _jitbin_array for EVERY positive bin size (the half-tick comparison was repaired in 4a0e79d; C05_odd_bin_size_refuted is about the frozen old text)"),
- "C06": " End-to-end and interpolate-slice theorems." + KT % ("C06", ": jitvaluefrom, no hypothesis, any mode"),
+ "C05": KT % ("C05", ": jitcount and _jitbin_array for EVERY positive bin size (the half-tick comparison was repaired in 4a0e79d; C05_odd_bin_size_refuted is about the frozen old text), total correctness"),
+ "C06": " End-to-end and interpolate-slice theorems." + KT % ("C06", ": jitvaluefrom, no hypothesis, any mode, total correctness"),
  "C07": " Exact hypotheses for dropna (necessary and sufficient) and refutation witnesses for duplicates / 1 ns neighbours." + KT % ("C07", ": jitthreshold and jitremove_nan"),
+ "C19": KT % ("C19", ": _overlap_split returns exactly the model's segments; the repair's loop bound never fires in exact arithmetic"),
  "C15": " TERMINATION of all 17 kernel texts on their safety preconditions (Properties/C15b.v, total-correctness calculus Jit/Total.v with a variant per while loop).",
- "C16": KT % ("C16", ": _cross_correlogram for every bin size below 2 s (hypothesis round9_exact, sharp: C16_kernel_text_round9_refuted)"),
+ "C16": KT % ("C16", ": _cross_correlogram for every bin size below 2 s (hypothesis round9_exact, sharp: C16_kernel_text_round9_refuted) and _jitcontinuous_perievent, total correctness"),
 }
-TECH_ADD = {k: "; refinement proof of the translator-regenerated kernel text against the model (wp calculus with functional invariants)" + ("; total correctness via variants" if k in ("C01", "C02", "C03", "C15") else "") for k in ADD}
+TECH_ADD = {k: "; refinement proof of the translator-regenerated kernel text against the model (wp calculus with functional invariants)" + ("; total correctness via variants" if k in ("C01", "C02", "C03", "C05", "C06", "C15", "C16") else "") for k in ADD}
 for k, v in ADD.items():
     CLAIMED[k]["text"] += v
     CLAIMED[k]["technique"] += TECH_ADD[k]
